@@ -40,6 +40,7 @@ func checkC13(r *core.Run) {
 	// a transaction mixing segwit-v0 and taproot inputs: each digest keeps its own cached sub-hashes (shared with C02)
 	c02CacheOwners(r, p, "R-C13-dispatch")
 	c09WriterRanges(r, p, "R-C13-guards") // the serialisation written to the file and signed over uses these CompactSize writers
+	c13WitnessTableOnce(r, p, "R-C13-effects")
 }
 
 func c13w(p *core.Program, n string) *ssa.Function { return p.Func("wallet." + n) }
@@ -1491,4 +1492,94 @@ func c13Nil(r *core.Run, p *core.Program) {
 	}
 	sort.Strings(bad)
 	r.Check(len(bad) == 0 && n >= 4, rule, "segwit-elements", "-", fmt.Sprintf("%d dereferences of segwit[i], all under a nil test or after the compressed-key test", n), strings.Join(bad, "; "))
+}
+
+// c13WitnessTableOnce: the table of per-input witnesses of a transaction that already exists is allocated
+// only where it is known to be missing (tx.SegWit == nil).  Allocating it again while signing a later input
+// wipes the witnesses of the inputs signed before: the file is written with empty witnesses for them.
+func c13WitnessTableOnce(r *core.Run, p *core.Program, rule string) {
+	const field = "lib/btc.Tx.SegWit"
+	n := 0
+	for _, fn := range p.ModuleFuncs() {
+		if fn.Pkg == nil || fn.Blocks == nil {
+			continue
+		}
+		if pp := fn.Pkg.Pkg.Path(); !strings.HasSuffix(pp, "/wallet") && !strings.HasSuffix(pp, "lib/btc") {
+			continue
+		}
+		an.Instrs(fn, func(i ssa.Instruction) {
+			st, ok := i.(*ssa.Store)
+			if !ok {
+				return
+			}
+			fa, ok := st.Addr.(*ssa.FieldAddr)
+			if !ok {
+				return
+			}
+			if f, _ := an.FieldOf(fa); f != field {
+				return
+			}
+			if _, isMk := st.Val.(*ssa.MakeSlice); !isMk {
+				return
+			}
+			if c13FreshHere(fa.X) {
+				return // a transaction being built in this function
+			}
+			n++
+			guarded := false
+			for _, dc := range an.DomConds(st.Block()) {
+				x, y, rel, ok := dc.Cmp()
+				if !ok || rel != token.EQL {
+					continue
+				}
+				if c, isC := y.(*ssa.Const); !isC || c.Value != nil {
+					continue
+				}
+				ld, isLd := x.(*ssa.UnOp)
+				if !isLd || ld.Op != token.MUL {
+					continue
+				}
+				fa2, isFa := ld.X.(*ssa.FieldAddr)
+				if !isFa {
+					continue
+				}
+				if f, _ := an.FieldOf(fa2); f == field && an.Expr(fa2.X) == an.Expr(fa.X) {
+					guarded = true
+				}
+			}
+			r.Check(guarded, rule, "witness-table-once/"+core.FuncName(fn), p.Pos(st.Pos()), "allocated only when missing", "the transaction's witness table is allocated without the test that it is missing: witnesses stored for inputs signed earlier are wiped")
+		})
+	}
+	r.Check(n >= 2, rule, "witness-table-once/sites", "-", fmt.Sprintf("%d allocations of the witness table of an existing transaction", n), fmt.Sprintf("%d allocations found (expected at least 2)", n))
+}
+
+// c13FreshHere: v is an object allocated in this function: an Alloc, or a load of a local cell (named
+// result, captured variable) that only ever holds objects allocated here.
+func c13FreshHere(v ssa.Value) bool {
+	if _, ok := v.(*ssa.Alloc); ok {
+		return true
+	}
+	ld, ok := v.(*ssa.UnOp)
+	if !ok || ld.Op != token.MUL {
+		return false
+	}
+	cell, ok := ld.X.(*ssa.Alloc)
+	if !ok || cell.Referrers() == nil {
+		return false
+	}
+	n := 0
+	for _, ref := range *cell.Referrers() {
+		st, ok := ref.(*ssa.Store)
+		if !ok || st.Addr != ssa.Value(cell) {
+			continue
+		}
+		if c, isC := st.Val.(*ssa.Const); isC && c.Value == nil {
+			continue
+		}
+		if _, isNew := st.Val.(*ssa.Alloc); !isNew {
+			return false
+		}
+		n++
+	}
+	return n > 0
 }
